@@ -184,7 +184,10 @@ Proof.
         -- (* the bar renders (on its actor, or by the container goroutine once the actor has exited) *)
            set (st := br_st r).
            exists (BAR_RENDER b (current st) (total st) (refill st) (aborted st) (completed st) (shutdown st)).
-           split; [reflexivity|]. unfold enabled, step. rewrite Lb, Rn, andb_false_r. unfold bar_render. fold st.
+           split; [reflexivity|]. unfold enabled, step. rewrite Lb, Rn, andb_false_r. fold st.
+           assert (NoMark : aborted st && negb (aborted st) && negb (completed st) && negb (exited st)
+                            && (cancelled s || BarState.cancelled st) = false) by (destruct (aborted st); reflexivity).
+           rewrite NoMark. unfold bar_render. fold st.
            rewrite !Z.eqb_refl, !eqb_reflx, Fr. cbn [andb]. destruct (brender st). discriminate.
   - (* the heap manager takes the next request *)
     assert (It : iterating s = false).
